@@ -1,0 +1,15 @@
+//go:build verif
+
+package dns_naming
+
+import "github.com/irai/packet"
+
+// VerifNew returns a DNSHandler without binding the multicast sockets.
+// Only compiled with the "verif" build tag.
+func VerifNew(session *packet.Session) *DNSHandler {
+	h := new(DNSHandler)
+	h.session = session
+	h.DNSTable = make(map[string]packet.DNSEntry, 256)
+	h.mdnsCache = make(map[string]cache)
+	return h
+}
